@@ -3,7 +3,6 @@ import math
 from fractions import Fraction
 
 import numpy as np
-from hypothesis import assume
 from hypothesis import strategies as st
 
 import eqsig
@@ -55,7 +54,7 @@ ASSUMPTIONS = [
     "(64 + 4*log2(m))*eps*scale <= 2.5e-14*scale for sections of m <= 5000 samples (two pairwise means, one subtraction per "
     "sample), the stated tolerance leaves a factor 40",
     "same_start() without arguments (what the repo's test and example do): the section is the signature's default start=0, end=1 "
-    "(seconds); generated only for records of at least one second",
+    "(seconds); generated only for records that contain it (int(1/dt)+1 <= n)",
     "same-start 'changed only by a constant': (new_k - old_k) equals (new_0 - old_0) within 4*eps*(|old_k|+|new_k|+|old_0|+|new_0|)",
 ]
 EPS = np.finfo(float).eps
@@ -497,7 +496,7 @@ def time_match(case, ctx):
     _tm_check(case, ctx)
 
 
-@clause(CLAUSES, "time-match-unequal", _tm_cases(unequal=True), quick=400, thorough=2000,
+@clause(CLAUSES, "time-match-unequal", _tm_cases(unequal=True), quick=400, thorough=1500,
         rule="as `time-match`, but the signals have different lengths (each steps+2 .. steps+100); non-trivial = some slave has a "
              "non-zero lag",
         oracle="reference model: as `time-match`; the overlap of a slave ends where either record ends",
@@ -637,6 +636,7 @@ def same_start(case, ctx):
         ctx.check(isinstance(v, np.ndarray) and v.ndim == 1, "values of signal %d are %s after same_start" % (j, type(v).__name__))
         ctx.check(len(v) == lens[j] and cl.signal_by_index(j).npts == lens[j],
                   "length of signal %d changed from %d to %d" % (j, lens[j], len(v)))
+        ctx.finite(v, "values of signal %d after same_start" % j)
         after.append(np.array(v, dtype=float))
     ctx.equal(after[master], before[master], "master (signal %d) modified by same_start" % master)
     scale = max(max(float(np.max(np.abs(b))), float(np.max(np.abs(a)))) for b, a in zip(before, after))
